@@ -935,8 +935,9 @@ def check_c20(rep):
     allev = [json.loads(l) for l in raw]
     layouts = [e for e in allev if e["k"] == "cheetah_layout"]
     clayouts = [e for e in allev if e["k"] == "conv_layout"]
-    raw = [l for l, e in zip(raw, allev) if e["k"] not in ("cheetah_layout", "conv_layout")]
-    evs = [e for e in allev if e["k"] not in ("cheetah_layout", "conv_layout")]
+    blayouts = [e for e in allev if e["k"] == "bolt_layout"]
+    raw = [l for l, e in zip(raw, allev) if e["k"] not in ("cheetah_layout", "conv_layout", "bolt_layout")]
+    evs = [e for e in allev if e["k"] not in ("cheetah_layout", "conv_layout", "bolt_layout")]
     # design: the coefficient packing (block search, index maps, block-wise negacyclic products) computes the matrix product
     quick = rep.tier == "quick"
     design = []
@@ -981,6 +982,30 @@ def check_c20(rep):
             rep.violation({"k": "conv_layout", "objective": e["objective"], "panic": e["panicked"]},
                           {"event": {k: v for k, v in e.items() if k not in ("enc_in", "enc_w")}, "cmd": None})
     rep.cov["conv2d_layout_events"] = ncl
+    # the BOLT helpers: Bolt.tla (slot layouts, rotation / mask / rotate-and-sum programs, read-out, blocking) on all pairs of unit matrices
+    bdesign = []
+    for n, mm, mr, mn in ((8, 5, 5, 5), (16, 5, 4, 5)) if quick else ((8, 6, 9, 6), (16, 9, 5, 6), (32, 4, 3, 3)):
+        cfgp = os.path.join(wd, "bolt_design_%d.cfg" % n)
+        open(cfgp, "w").write("SPECIFICATION Spec\nCONSTANTS\n  N = %d\n  MaxM = %d\n  MaxR = %d\n  MaxN = %d\nINVARIANTS AllCpParamsOk AllCpOk AllCrOk AllDcOk\nCHECK_DEADLOCK FALSE\n" % (n, mm, mr, mn))
+        r = run_tlc("Bolt", cfgp, wd, workers=14, timeout=3000, java_opts="-Xss1g")
+        if r["violated"]:
+            raise ToolError("Bolt.tla violates %s (N=%d)" % (r["violated"], n))
+        tlc_must_pass(r, "Bolt.tla N=%d" % n)
+        bdesign.append({"N": n, "m<=": mm, "r<=": mr, "n<=": mn, "helpers": 3, "unit_pairs_per_shape": "m*r*r*n", "tlc_wall_s": round(r["wall_s"], 1)})
+    rep.cov["bolt_refinement_design"] = bdesign
+    nbl = 0
+    for n in sorted({e["N"] for e in blayouts}):
+        part = blayouts_n = [e for e in blayouts if e["N"] == n]
+        cfg = "SPECIFICATION TSpec\nCONSTANTS\n  N = %d\n  MaxM = 1\n  MaxR = 1\n  MaxN = 1\nINVARIANT Report\nINVARIANT AllHold\nCHECK_DEADLOCK FALSE\n" % n
+        lbad, lst = arith.validate([json.dumps(e) for e in part], wd, name="boltlayout%d" % n, module="Trace_Bolt", chunks=8, timeout=3000, cfg_text=cfg)
+        nbl += len(part)
+        for b in lbad:
+            e = part[b[0] - 1]
+            rep.violation({"k": "bolt_layout", "helper": e["helper"], "panic": e["panicked"]},
+                          {"event": {k: v for k, v in e.items() if k not in ("enc_in", "enc_w", "enc_out")}, "cmd": None})
+    rep.cov["bolt_layout_events"] = nbl
+    if not blayouts:
+        raise ToolError("no BOLT layout events recorded")
     bad, st = arith.validate(raw, wd, module="Trace_MatMul", chunks=8, timeout=3000)
     for b in bad:
         e = evs[b[0] - 1]
